@@ -33,32 +33,72 @@ Theorem C12_never_loses : forall c o, IInv c -> op_wf o -> ix_removing o = false
 Proof. exact index_never_loses. Qed.
 Print Assumptions C12_never_loses.
 
-(* Concurrent clause, full statement: "a key present in every committed state during a lookup is found".
-   FALSE of the code as written (known finding C12-F1): there is a schedule in which the key is present in
-   every committed state and yet the lookup raises KeyError. *)
-Theorem C12_continuous_presence_refuted :
-  exists file0 v0 ws sched,
-    forallb present (trace (init file0 v0 ws) sched) = true /\
-    lookup_result (run (init file0 v0 ws) sched) = Some None.
-Proof. exact continuous_presence_refuted. Qed.
-Print Assumptions C12_continuous_presence_refuted.
+(* Concurrent clause, FULL STATEMENT: "a key present in every committed state during a lookup is found".
+   Machine: model/IndexConc.v -- one reader (Index.__getitem__ -> Cache.get, lock-free path: SELECT the row, open the
+   file it names, and when the file is gone SELECT again, giving up only when the row is gone or the SAME file is
+   missing twice: `repaired` = Gen_Sql.get_retries_after_missing_file, read off the loop of Cache.get by the translator)
+   against any number of writers that replace the value (store, BEGIN, UPDATE, COMMIT, remove the old file), inline
+   and file-backed values mixed, under EVERY schedule.  Safety: the key is present in every committed state, the
+   lookup never reports "absent" (lookup_result = Some None never happens; None = the lookup is still in progress,
+   which a schedule that keeps replacing the value between the reader's steps can prolong), and a value it returns
+   is the initial one or one that some writer wrote. *)
+Theorem C12_continuous_presence : forall file0 v0 ws sched,
+  let c := run repaired (init file0 v0 ws) sched in
+  forallb present (trace repaired (init file0 v0 ws) sched) = true /\
+  lookup_result c <> Some None /\
+  (forall v, lookup_result c = Some (Some v) -> In v (v0 :: map fst ws)).
+Proof. exact continuous_presence. Qed.
+Print Assumptions C12_continuous_presence.
 
-(* Strongest true restriction, for every schedule, any number of replacing writers and any mix of inline
-   and file-backed values: the key is present in every committed state, and a lookup raises KeyError only
-   if a writer's removal of a value file ran between the lookup's SELECT and its open. *)
-Theorem C12_continuous_presence_partial : forall file0 v0 ws sched,
-  let c := run (init file0 v0 ws) sched in
-  forallb present (trace (init file0 v0 ws) sched) = true /\
+(* The defect that was repaired (known_findings.txt, fixed: property=C12, former finding C12-F1), on the reader the code
+   had before (`old_reader`: a file that is gone was reported as KeyError at once): there is a schedule in which the
+   key is present in every committed state and yet the lookup raises KeyError -- reader SELECT; writer store, BEGIN,
+   UPDATE, COMMIT, remove the old file; reader open. *)
+Theorem C12_continuous_presence_old_reader_refuted :
+  exists file0 v0 ws sched,
+    forallb present (trace old_reader (init file0 v0 ws) sched) = true /\
+    lookup_result (run old_reader (init file0 v0 ws) sched) = Some None.
+Proof. exact continuous_presence_old_reader_refuted. Qed.
+Print Assumptions C12_continuous_presence_old_reader_refuted.
+
+(* ... under that very schedule the reader of the code as it is has not reported anything after its failed open; its
+   next two steps (SELECT again, open the new file) return the NEW value *)
+Theorem C12_witness_schedule_repaired :
+  lookup_result (run repaired witness_init witness_schedule) = None /\
+  reader (run repaired witness_init witness_schedule) = RAgain (-1) /\
+  lookup_result (run repaired witness_init (witness_schedule ++ [0; 0]%nat)) = Some (Some 8).
+Proof. exact witness_schedule_repaired. Qed.
+Print Assumptions C12_witness_schedule_repaired.
+
+(* What was true of the old reader, for every schedule, any number of writers and any mix of inline and file-backed
+   values (the strongest true restriction at the time): it raised KeyError only if a writer's removal of a value file
+   ran between its SELECT and its open ... *)
+Theorem C12_continuous_presence_old_reader_partial : forall file0 v0 ws sched,
+  let c := run old_reader (init file0 v0 ws) sched in
+  forallb present (trace old_reader (init file0 v0 ws) sched) = true /\
   (lookup_result c = Some None -> removed_during_lookup c = true).
-Proof. exact continuous_presence_partial. Qed.
-Print Assumptions C12_continuous_presence_partial.
+Proof. exact continuous_presence_old_reader_partial. Qed.
+Print Assumptions C12_continuous_presence_old_reader_partial.
 
 (* ... in particular never when all values are inline *)
-Theorem C12_continuous_presence_inline : forall v0 ws sched,
+Theorem C12_continuous_presence_old_reader_inline : forall v0 ws sched,
   forallb (fun p => negb (snd p)) ws = true ->
-  lookup_result (run (init false v0 ws) sched) <> Some None.
-Proof. exact continuous_presence_inline. Qed.
-Print Assumptions C12_continuous_presence_inline.
+  lookup_result (run old_reader (init false v0 ws) sched) <> Some None.
+Proof. exact continuous_presence_old_reader_inline. Qed.
+Print Assumptions C12_continuous_presence_old_reader_inline.
+
+(* The same schedule on the machine of model/Conc.v with the REAL transaction bodies (Txn.w_set, Txn.r_get / r_get_old;
+   key "k" holds a 20-character value in a file, the writer replaces it by another one): the old reader reports the
+   default, the reader of the code as it is returns the new value, and under every placement of the writer among the
+   reader's steps it returns the old or the new value.  (For every schedule of that machine: C05_lookup_looks_again,
+   C05_lookup_answer_justified.) *)
+From DC Require Import LookupFacts.
+Theorem C12_lookup_overlapping_replace_on_the_machine :
+  lookup_outcome (r_get_old wcfg wkey false wnow) 1 = ([ORes RDefault], true) /\
+  lookup_outcome (r_get wcfg wkey false wnow) 1 = ([found wbig2], true) /\
+  forallb (fun n => outcome_in (lookup_outcome (r_get wcfg wkey false wnow) n) [wbig; wbig2]) (seq 0 6) = true.
+Proof. exact lookup_overlapping_replace_on_the_machine. Qed.
+Print Assumptions C12_lookup_overlapping_replace_on_the_machine.
 
 (* "each operation is atomic": setdefault.  The code runs its lookup / add loop inside one transaction
    (Gen_Persistent.index_setdefault_retry, index_setdefault_add with qc_in_txn = true; fixed by the template of
